@@ -224,6 +224,16 @@ func genGroup(prop string, seed uint64) *Plan {
 		g.P.Actors = append(g.P.Actors, sc)
 		churn.Ops = append(churn.Ops, Op{Kind: "sleep", A: g.rng(20000, 40000)})
 	} else {
+		if prop == "C27" && g.pct(25) && nslots >= 2 && ntopics >= 2 && k["stale_family"] == 0 {
+			// one member stops consuming a topic that another member
+			// still subscribes to: its partitions of that topic have to
+			// reach the other member
+			k["sub_split"] = g.pick(0, 1)
+			k["c27_purge"] = 1
+			churn.Ops = append(churn.Ops, Op{Kind: "sleep", A: g.pick(500, 3000)}, Op{Kind: "join", A: 1}, Op{Kind: "sleep", A: g.pick(3000, 6000)},
+				Op{Kind: "purge", A: 0}, Op{Kind: "sleep", A: g.pick(3000, 8000)})
+			nchurn = 0
+		}
 		if prop == "C07" && g.pct(20) && nslots >= 2 {
 			// directed: a cooperative member is closed (or leaves) from
 			// another goroutine while its revoke callback for partitions
